@@ -26,7 +26,7 @@ pub const CHECKS: &[CheckDef] = &[
     CheckDef { id: "C08", level: "exploration", rules: &["C08.", "CRASH."], quick_runs: 6000, thorough_runs: 200_000, nontrivial_rule: ">=1 pair of overlapping Publish calls on one topic and >=2 subscriptions on a topic" },
     CheckDef { id: "C09", level: "exploration", rules: &["C09.", "CRASH."], quick_runs: 5000, thorough_runs: 150_000, nontrivial_rule: ">=1 redelivery and >=1 delivery by each of >=2 delivery paths" },
     CheckDef { id: "C10", level: "exploration", rules: &["C10.", "CRASH."], quick_runs: 6000, thorough_runs: 200_000, nontrivial_rule: ">=2 operations on one name overlapped and at least one of them was a create or a delete" },
-    CheckDef { id: "C11", level: "exploration", rules: &["C11.", "C01.conservation", "CRASH."], quick_runs: 6000, thorough_runs: 200_000, nontrivial_rule: ">=1 DeleteSubscription or DeleteTopic returned OK and a later audit listed a topic's subscriptions" },
+    CheckDef { id: "C11", level: "exploration", rules: &["C11.", "C01.conservation", "C01.lost", "C01.redelivery", "CRASH."], quick_runs: 6000, thorough_runs: 200_000, nontrivial_rule: ">=1 DeleteSubscription or DeleteTopic returned OK and a later audit listed a topic's subscriptions" },
     CheckDef { id: "C12", level: "exploration", rules: &["C12.", "CRASH."], quick_runs: 5000, thorough_runs: 150_000, nontrivial_rule: "a DeleteSubscription returned OK while >=1 stream or blocking Pull was waiting on the subscription" },
     CheckDef { id: "C13", level: "exploration", rules: &["C13.", "CRASH."], quick_runs: 4000, thorough_runs: 100_000, nontrivial_rule: ">=1 walk of >=2 pages over a listing that had deletions before it, or a forged decodable token" },
     CheckDef { id: "C14", level: "exploration", rules: &["C14.", "C09.fields", "CRASH."], quick_runs: 5000, thorough_runs: 150_000, nontrivial_rule: ">=1 POST was answered with a non-accepting behaviour and the same message was POSTed again" },
